@@ -63,6 +63,8 @@ def generate(rng, index, cfg):
         # ($XDG_CONFIG_HOME/git/attributes or core.attributesFile), an in-tree .gitattributes; repository or user config
         "filter_location": rng.choice(["info", "info", "xdg", "attributesfile", "tree"]),
         "filter_config_scope": rng.choice(["local", "local", "global"]),
+        # how the work tree is attached to its repository (.git directory, or a .git *file*)
+        "layout": rng.choice(["plain"] * 7 + ["separate_git_dir", "linked_nested", "linked_nested"]),
     }
     dirs = swarm["dirs"]
     ops = []
@@ -865,8 +867,35 @@ class Runner:
 
     def run(self):
         w = self.world
+        layout = (self.trace.get("swarm") or {}).get("layout", "plain")
+        outer = None
+        if layout == "linked_nested":
+            # the repository under test is a linked work tree kept inside the main work tree of its repository
+            outer = w.work
+            w.work = os.path.join(outer, "trees", "feature")
+            os.makedirs(w.work)
         w.activate()
-        w.git("init", "-q", "-b", "main", ".")
+        if layout == "linked_nested":
+            w.git("init", "-q", "-b", "trunk", ".", cwd=outer)
+            w.git("config", "user.name", "Sim", cwd=outer)
+            w.git("config", "user.email", "sim@example.invalid", cwd=outer)
+            with open(os.path.join(outer, "trunk.ipynb"), "w") as f:
+                f.write('{"cells": [], "metadata": {"on": "trunk"}, "nbformat": 4, "nbformat_minor": 4}\n')
+            w.git("add", "trunk.ipynb", cwd=outer)
+            w.git("commit", "-q", "-m", "trunk 1", cwd=outer)
+            with open(os.path.join(outer, "trunk.ipynb"), "w") as f:
+                f.write('{"cells": [], "metadata": {"on": "trunk", "v": 2}, "nbformat": 4, "nbformat_minor": 4}\n')
+            w.git("commit", "-q", "-am", "trunk 2", cwd=outer)
+            w.git("worktree", "add", "-q", "--detach", w.work, cwd=outer)
+            # an unborn branch of its own, so that the generated history starts from nothing as in the other layouts
+            w.git("checkout", "-q", "--orphan", "main")
+            w.git("rm", "-q", "-r", "-f", "--", ".", check=False)
+            self.stat("layout_linked_nested")
+        elif layout == "separate_git_dir":
+            w.git("init", "-q", "-b", "main", "--separate-git-dir", os.path.join(w.root, "gitstore"), ".")
+            self.stat("layout_separate_git_dir")
+        else:
+            w.git("init", "-q", "-b", "main", ".")
         w.git("config", "user.name", "Sim")
         w.git("config", "user.email", "sim@example.invalid")
         self.log.ev("start", swarm=self.trace.get("swarm"))
@@ -883,7 +912,7 @@ class Runner:
             elif loc == "tree":
                 attrs = os.path.join(w.work, ".gitattributes")
             else:
-                attrs = os.path.join(w.work, ".git", "info", "attributes")
+                attrs = os.path.realpath(os.path.join(w.work, w.git("rev-parse", "--git-path", "info/attributes").stdout.decode().strip()))
             os.makedirs(os.path.dirname(attrs), exist_ok=True)
             self.stat("filter_location_" + loc)
             with open(attrs, "w") as f:
